@@ -129,7 +129,13 @@ func DecodeEmbeddedProps() DecodeInternalFn {
 
 func EncodeEmbeddedProps() EncodeInternalFn {
 	return func(m Manifest, node dom.ContainerBuilder) error {
-		for k, v := range node.Flatten() {
+		fl := node.Flatten()
+		for _, k := range m.StringData().List() {
+			if _, ok := fl[k]; !ok {
+				m.StringData().Remove(k)
+			}
+		}
+		for k, v := range fl {
 			m.StringData().Update(k, fmt.Sprintf("%v", v.Value()))
 		}
 		return nil
